@@ -84,6 +84,10 @@ class Base:
         self.rec.ev("dev", self.name, op, arg, n)
 
     def _fault(self, op):
+        f = self.faults.get(op)
+        if isinstance(f, list):          # a script per call: ["ok", "raise"] = the second call raises
+            v = f.pop(0) if f else None
+            return None if v in (None, "", "ok") else v
         return self.faults.pop(op, None)
 
     def _status(self, op, on_done=None):
